@@ -41,6 +41,9 @@ def run(ctx):
             if ctx.quick() and rec["dev"] > 0:
                 k += 1
                 rs = [RUNNERS[k % 4]]            # rotate the runner over the records (and the seed)
+            elif not ctx.quick() and rec["dev"] > 1:
+                k += 1
+                rs = [RUNNERS[k % 4], RUNNERS[(k + 2) % 4]]
             else:
                 rs = RUNNERS
             for ru in RUNNERS:
@@ -49,7 +52,7 @@ def run(ctx):
             for ru in RUNNERS:
                 rest.append(dict(rec, runner=ru))
     rng.shuffle(rest)
-    rl_cases = ess + rest
+    rl_cases = ess + rest[:ctx.pick(400, 4000)]
     # ---- verdict programs x runners
     vr = ["ptrace", "unshare", "cbefore"] if ctx.quick() else RUNNERS
     v_cases = [dict(p, runner=ru) for ru in vr for p in progs]
@@ -91,7 +94,7 @@ def run(ctx):
     j = ctx.tlc("Limits_Judge", files={"rlobs.ndjson": rlobs, "vobs.ndjson": vobs, "cobs.ndjson": cobs}, timeout=900)
     ctx.tlc_ok("Limits_Judge", j)
     bad = ctx.read_ndjson(os.path.join(j.dir, "bad.ndjson"))
-    drift, incon = 0, []
+    drift, incon, vacuous = 0, [], 0
     for b in bad:
         o = {"rl": rlobs, "v": vobs, "c": cobs}[b["kind"]][b["i"] - 1]
         if b["j"] == "viol":
@@ -109,6 +112,9 @@ def run(ctx):
                 what = "%s: cap %d, volume %d: retained=%s written=%s werrno=%s wsig=%s blocked=%s" % (
                     b["why"], o["n"], o["volume"], o["retained"], o["written"], o["werrno"], o["wsig"], o["blocked"])
             ctx.violation(key, what, o)
+        elif b["j"] == "vacuous":
+            vacuous += 1
+            ctx.note("vacuous: %s under %s decided before the program ran (mem_kib=%s > ml_kib=%s)" % (o["name"], o["runner"], o["mem_kib"], o["ml_kib"]))
         elif b["j"] == "drift":
             drift += 1
             if drift <= 5:
@@ -117,6 +123,7 @@ def run(ctx):
             incon.append((b, o))
     ctx.traces = len(rlobs) + len(vobs) + len(cobs)
     ctx.cov["drift"] = drift
+    ctx.cov["vacuous_verdict_runs"] = vacuous
     ctx.cov["kernel_truth_mismatches"] = len(incon)
     ctx.cov["limit_record_runs"] = len(rlobs)
     ctx.cov["verdict_runs"] = len(vobs)
